@@ -20,10 +20,10 @@
    canonical (no edge under an edge, no binary node with an empty child); after Commit the database
    holds exactly the canonical sparse trie of kv (DbRight, and NoOrphans when repaired).
 
-   FixValueDeletePath: FALSE = the code as it is: deleting a value node that hangs directly under a
+   FixValueDeletePath: TRUE = the code since fix 85c68cc (registered default). FALSE = before it: deleting a value node that hangs directly under a
    binary node calls nodeTracer.onDelete(key) with the REMAINING key (empty) instead of the leaf's
    path (trie.go:511), so the leaf's database entry is never deleted (an orphan that
-   core/state.StateReader.ContractStorage then still reads).  TRUE = repaired (onDelete(prefix)). *)
+   core/state.StateReader.ContractStorage then still reads). *)
 EXTENDS Trie
 
 CONSTANTS MaxSteps, FixValueDeletePath,
